@@ -273,6 +273,76 @@ def reader_complete(ctx, reach):
     ctx.floor("reader loops", 2, n)
 
 
+def index_complete(ctx):
+    """C13.5: every candidate found in every search directory reaches the search index (lists are merged, never replaced)."""
+    n = 0
+    for q in ("torrentfile.rebuild:_index_contents", "torrentfile.rebuild:_index_content"):
+        fn = ctx.prog.functions.get(q)
+        if fn is None:
+            ctx.undecided("C13.5", None, "anchor vanished: %s" % q)
+            continue
+        rets = [r.value for r in own_nodes(fn.node) if isinstance(r, ast.Return) and isinstance(r.value, ast.Name)]
+        acc = {r.id for r in rets}
+        for loop in [x for x in own_nodes(fn.node) if isinstance(x, ast.For)]:
+            # a loop over search roots / directory entries that calls the indexer again
+            calls = [c for st in loop.body for c in ast.walk(st) if isinstance(c, ast.Call) and any(t.name.startswith("_index_content") for t in C.targets_of(ctx, fn, c))]
+            if not calls:
+                continue
+            n += 1
+            bad = None
+            for st in loop.body:
+                for x in ast.walk(st):
+                    if isinstance(x, ast.Call) and isinstance(x.func, ast.Attribute) and x.func.attr == "update" and isinstance(x.func.value, ast.Name) and x.func.value.id in acc:
+                        bad = (x, "dict.update replaces the candidate list of a name found earlier")
+                    if isinstance(x, ast.Assign) and isinstance(x.targets[0], ast.Subscript) and isinstance(x.targets[0].value, ast.Name) and x.targets[0].value.id in acc \
+                            and not isinstance(x.value, (ast.List,)) and not (isinstance(x.value, ast.BinOp) and isinstance(x.value.op, ast.Add)):
+                        bad = (x, "assignment replaces the candidate list of a name found earlier")
+            merged = any(isinstance(x, ast.Call) and isinstance(x.func, ast.Attribute) and x.func.attr in ("extend", "append") and isinstance(x.func.value, ast.Subscript)
+                         and isinstance(x.func.value.value, ast.Name) and x.func.value.value.id in acc for st in loop.body for x in ast.walk(st)) or \
+                any(isinstance(x, ast.AugAssign) and isinstance(x.target, ast.Subscript) and isinstance(x.target.value, ast.Name) and x.target.value.id in acc for st in loop.body for x in ast.walk(st))
+            if bad:
+                ctx.violated("C13.5", fn, "%s: when the same file name occurs under several search directories only the last directory's candidates survive, so an intact copy elsewhere is never tried" % bad[1], bad[0])
+            elif merged:
+                ctx.holds("C13.5", fn, "candidates of `for %s in %s` are merged into the index by extending the per-name lists" % (norm(loop.target), norm(loop.iter)), loop.iter)
+            else:
+                ctx.undecided("C13.5", fn, "how `for %s in %s` merges its candidates into the index is not understood" % (norm(loop.target), norm(loop.iter)), loop.iter)
+        early = [x for x in own_nodes(fn.node) if isinstance(x, ast.Break)]
+        if early:
+            ctx.violated("C13.5", fn, "indexing stops early: later directories / entries are not searched", early[0])
+    ctx.floor("index merge loops", 2, n)
+
+
+def candidates_independent(ctx, flow, reach):
+    """C13.6: trying one candidate must not change the state the next candidate is verified with."""
+    n = 0
+    for fn in reach:
+        if fn.module.name != "torrentfile.rebuild":
+            continue
+        for loop in [x for x in own_nodes(fn.node) if isinstance(x, ast.For)]:
+            if not is_candidate_loop(ctx, flow, fn, loop):
+                continue
+            if not any(isinstance(c, ast.Call) and any(t.name == "copypath" for t in C.targets_of(ctx, fn, c)) for st in loop.body for c in ast.walk(st)):
+                continue
+            n += 1
+            outer = set(fn.all_params()) | {t.id for st in fn.node.body if st is not loop and isinstance(st, ast.Assign) for t in st.targets if isinstance(t, ast.Name)}
+            inner_defs = {t.id for st in loop.body for x in ast.walk(st) if isinstance(x, ast.Assign) for t in x.targets if isinstance(t, ast.Name)} | \
+                {x.id for x in ast.walk(loop.target) if isinstance(x, ast.Name)}
+            shared = outer - inner_defs
+            bad = None
+            for st in loop.body:
+                for x in ast.walk(st):
+                    if isinstance(x, ast.Call) and isinstance(x.func, ast.Attribute) and isinstance(x.func.value, ast.Name) and x.func.value.id in shared \
+                            and x.func.attr in ("update", "append", "extend", "add", "write", "pop", "clear", "insert"):
+                        bad = x
+                    if isinstance(x, ast.AugAssign) and isinstance(x.target, ast.Name) and x.target.id in shared:
+                        bad = x
+            if bad is not None:
+                ctx.violated("C13.6", fn, "a value shared by all iterations of the candidate loop is changed while a candidate is tried (%s): a rejected candidate contaminates the verification of the next one, so an intact copy listed after a decoy never verifies" % norm(bad)[:60], bad)
+            else:
+                ctx.holds("C13.6", fn, "each candidate of `for %s in %s` is verified from state the loop does not carry over" % (norm(loop.target), norm(loop.iter)), loop.iter)
+    ctx.floor("candidate loops checked for independence", 2, n)
+
+
 def run(ctx):
     ctx.trust("the piece-to-file mapping (_map_pieces) and hash equality are NOT decided by this check")
     entries = C.funcs(ctx, ENTRY_FUNCS) + C.class_methods(ctx, ENTRY_CLASSES)
@@ -284,6 +354,8 @@ def run(ctx):
     counted_placed(ctx, flow, full, copyfns)
     reader_tolerates(ctx, full)
     reader_complete(ctx, full)
+    index_complete(ctx)
+    candidates_independent(ctx, flow, full)
 
 
 MUTANTS = [
